@@ -99,9 +99,8 @@ def check_result(ctx, prog, res, spec, sampled=False, pid="C02", d21=True):
         got = {k: canon(v) for k, v in t.arg_types.items()}
         for vn, vt in c["variadic"].items():
             if vn in got:
-                if got[vn] != canon(vt):
-                    return ctx.fail(f"{pid}/variadic-arg-type-wrong", spec, f"{where}: {vn}: {t.arg_types[vn]} expected {vt}\n{res.src}")
-                del got[vn]
+                # the logged argument types are those of the *named* parameters; the packed *args / **kwargs objects are not
+                return ctx.fail(f"{pid}/variadic-parameter-logged", spec, f"{where}: `{vn}` logged as {t.arg_types[vn]}\n{res.src}")
         if want != got:
             extra = ""
             if sampled and c["kind"] in ("gen", "coro"):
